@@ -213,7 +213,7 @@ impl FloatEncoding for f32 {
         let mut mantissa = mantissa.unsigned_abs();
 
         let zeros = mantissa.leading_zeros();
-        let top_bit = (u32::BITS - zeros) as i16 + exponent;
+        let top_bit = (u32::BITS - zeros) as i32 + exponent as i32;
 
         if top_bit > 128 {
             // overflow
@@ -334,7 +334,7 @@ impl FloatEncoding for f64 {
         let mut mantissa = mantissa.unsigned_abs();
 
         let zeros = mantissa.leading_zeros();
-        let top_bit = (u64::BITS - zeros) as i16 + exponent;
+        let top_bit = (u64::BITS - zeros) as i32 + exponent as i32;
 
         if top_bit > 1024 {
             // overflow
